@@ -58,10 +58,11 @@
 (*     of DIFFERENT peers inside one timeout window.  CrashSet / StopSet     *)
 (*     restrict who may crash / stop gracefully (roles: the state space of   *)
 (*     three or four nodes is otherwise too large to replay).                *)
-(*   - Sync = TRUE (four-id rolling restart only): a node publishes only     *)
+(*   - Sync = TRUE (the replayed booted scenarios): a node publishes only    *)
 (*     when nothing is in flight, i.e. the handling of one heartbeat by all  *)
-(*     receivers - still in any order - is not interleaved with the next     *)
-(*     heartbeat.  A sub-environment of D = 0.                               *)
+(*     receivers - in any order, and in any order with an unregister that    *)
+(*     is published meanwhile - is not interleaved with the next heartbeat.  *)
+(*     A sub-environment of D = 0.                                           *)
 (*   Extra: C18 only needs a live node to publish OFTEN ENOUGH.  "none": a    *)
 (*     register is published exactly when the refresh ticker fires (what the *)
 (*     code does).  "start": Start may also publish one at once (an eager    *)
